@@ -88,8 +88,9 @@ type Step struct {
 	Outside string  `json:"outside"`
 	Panic   bool    `json:"panic"`
 	Conc    string  `json:"conc,omitempty"`
-	Skip    string  `json:"skip,omitempty"`
+	Skip    string  `json:"skip"`
 	Cid     string  `json:"cid"`
+	Touched bool    `json:"touched"`
 }
 
 type TreeLine struct {
